@@ -67,7 +67,12 @@ Definition window_timeout_inflight (pre : ostate) (st : ostep) (lost : list N) :
       match find_app pre app with
       | Some a => ap_phtimer a &&
                   forallb (fun k => match find_alloc (ap_requests a) k with
-                                    | Some r => oa_allocated r && negb (oa_ph r) && negb (oa_release r =? 0)
+                                    | Some r => oa_allocated r &&
+                                                ((negb (oa_ph r) && negb (oa_release r =? 0)) ||
+                                                 (* or a stale allocated request (placeholder or real): flagged allocated, no
+                                                    allocation behind it (left by a TIMEOUT release / node removal), which the
+                                                    shim may have re-submitted under the same key: dropped silently as well *)
+                                                 negb (memN k (map oa_key (ap_allocs a))))
                                     | None => false end) lost
       | None => false
       end
